@@ -21,31 +21,59 @@ open Spec
 
 theorem cfg_good : cfg.Good := by constructor <;> decide
 
-/-- the file names / keys the model hard-codes are the ones the source uses -/
+/-- the file names / keys / glob patterns / line tests the model hard-codes are the ones the source
+    uses, and the generated strings are the model's own byte constants -/
 theorem cfg_names : namesAsModelled = true := by decide
+
+/-- `_common.cat` / `bcat` turn every OSError — from `open()` or from `read()` — into the fallback:
+    the model's single `unreadable` file state stands on this -/
+theorem cfg_cat : catAsModelled = true := by decide
 
 /-! ## temperatures -/
 
-/-- **Refinement.** For EVERY tree (any number of chips and sensors, either nesting, any subset
-    of the files absent or unreadable, any bytes in them, any zones with any trip points in any
-    order) the platform function returns normally, and its rows are, one for one, the rows of the
-    declarative view: hwmon sensors whose reading and chip name are readable numbers/text —
-    all others left out —, thermal zones only when hwmon lists no temperature file at all. -/
-theorem C19_temperatures_refine (t : TempTree) :
+/-- **The call never fails**, whatever the tree (any number of chips and sensors, either nesting,
+    any subset of the files absent or unreadable, any bytes in them, any zones with any trip points
+    in any order, any coretemp platform files). -/
+theorem C19_temperatures_never_fail (t : TempTree) : ∃ rows, sensorsTemperatures cfg t = .ok rows := by
+  have hg := cfg_good
+  unfold sensorsTemperatures
+  simp only [tempBases_eq, hwmon_collect' cfg hg, List.contains_eq_mem, hg.tempOs, decide_true,
+    not_true_eq_false, and_false, if_false]
+  by_cases hfb : (hwmonSensors t.chips).isEmpty = true ∧ t.coretempFiles = 0
+  · simp only [hfb, and_self, if_true]
+    obtain ⟨rows, h, _⟩ := collect_zones cfg hg t.zones
+    exact ⟨rows, h⟩
+  · simp only [hfb, if_false]
+    exact ⟨_, rfl⟩
+
+/-- **Refinement.** For EVERY tree on which the specification speaks (it says nothing about the
+    `/sys/devices/platform/coretemp.*` glob: that one matches nothing, or hwmon lists a sensor
+    anyway) the rows returned are, one for one, the rows of the declarative view: hwmon sensors
+    whose reading and chip name are readable numbers/text — all others left out —, thermal zones
+    only when hwmon lists no temperature file at all. -/
+theorem C19_temperatures_refine (t : TempTree)
+    (hct : t.coretempFiles = 0 ∨ (hwmonSensors t.chips).isEmpty = false) :
     ∃ rows, sensorsTemperatures cfg t = .ok rows ∧ List.Forall₂ AgreesRaw rows (temperatures t) := by
   have hg := cfg_good
   unfold sensorsTemperatures temperatures
   simp only [tempBases_eq, hwmon_collect' cfg hg, List.contains_eq_mem, hg.tempOs, decide_true,
     not_true_eq_false, and_false, if_false]
-  by_cases hfb : (hwmonSensors t.chips).isEmpty = true ∧ t.coretempFiles = 0
-  · simp only [hfb, and_self, if_true]
+  by_cases he : (hwmonSensors t.chips).isEmpty = true
+  · have hc : t.coretempFiles = 0 := by
+      rcases hct with h | h
+      · exact h
+      · rw [he] at h; cases h
+    simp only [he, hc, and_self, if_true]
     exact collect_zones cfg hg t.zones
-  · simp only [hfb, if_false]
+  · have hfb : ¬ ((hwmonSensors t.chips).isEmpty = true ∧ t.coretempFiles = 0) := fun h => he h.1
+    simp only [hfb, he, if_false]
     exact ⟨_, rfl, forall2_filterMap_toRaw _⟩
 
-/-- **A sensor whose reading is missing, unreadable or not a number (or whose chip has no readable
-    name) is skipped and never fails the call** — for every tree; exactly those are left out. -/
-theorem C19_missing_reading_skipped_never_fails (t : TempTree)
+/-- **A listed hwmon sensor whose reading is missing, unreadable or not a number (or whose chip has
+    no readable name) is skipped and does not fail the call** — for every tree in which hwmon lists
+    a temperature file (or the coretemp glob matches): the result is exactly the rows of the
+    per-sensor view, the others left out. (That NO tree fails is `C19_temperatures_never_fail`.) -/
+theorem C19_missing_reading_skipped (t : TempTree)
     (h : (hwmonSensors t.chips).isEmpty = false ∨ t.coretempFiles ≠ 0) :
     sensorsTemperatures cfg t
       = .ok ((hwmonSensors t.chips).filterMap fun cs => (hwmonRow cs.1 cs.2).map Row.toRaw) := by
@@ -59,6 +87,17 @@ theorem C19_missing_reading_skipped_never_fails (t : TempTree)
     | inl h => rw [h1] at h; cases h
     | inr h => exact h h2
   simp only [this, if_false]
+
+/-- CHARACTERISATION of the code as it is, not a promise of the property: the coretemp platform
+    glob yields no row (its entries are file names that are then read as `<file>_input`), but a
+    match SUPPRESSES the thermal-zone fallback: hwmon lists nothing, coretemp matches → `{}`
+    whatever the zones. The specification is silent on such trees (a maintainer reviving or
+    removing that glob changes nothing the theorems promise). -/
+theorem C19_coretemp_as_found (t : TempTree) (h1 : (hwmonSensors t.chips).isEmpty = true)
+    (h2 : t.coretempFiles ≠ 0) : sensorsTemperatures cfg t = .ok [] := by
+  rw [C19_missing_reading_skipped t (Or.inr h2)]
+  have : hwmonSensors t.chips = [] := by simpa using h1
+  rw [this]; rfl
 
 /-- which sensors are reported: reading readable AND numeric AND chip name readable -/
 theorem C19_reported_iff (c : Chip) (s : Sensor) :
@@ -95,16 +134,16 @@ theorem C19_threshold_nonnumeric_none (c : Chip) (s : Sensor) (r : TempRaw)
 theorem C19_zones_ignored_when_hwmon_lists (t : TempTree) (zs : List Zone)
     (h : (hwmonSensors t.chips).isEmpty = false) :
     sensorsTemperatures cfg { t with zones := zs } = sensorsTemperatures cfg t := by
-  rw [C19_missing_reading_skipped_never_fails t (Or.inl h)]
-  exact C19_missing_reading_skipped_never_fails { t with zones := zs } (Or.inl h)
+  rw [C19_missing_reading_skipped t (Or.inl h)]
+  exact C19_missing_reading_skipped { t with zones := zs } (Or.inl h)
 
 /-- …and with no listed hwmon temperature file the rows are those of the zones. -/
 theorem C19_fallback_to_zones (t : TempTree) (h : (hwmonSensors t.chips).isEmpty = true)
     (hc : t.coretempFiles = 0) :
     ∃ rows, sensorsTemperatures cfg t = .ok rows ∧ List.Forall₂ AgreesRaw rows (t.zones.filterMap zoneRow) := by
-  have := C19_temperatures_refine t
+  have := C19_temperatures_refine t (Or.inl hc)
   unfold temperatures at this
-  simpa only [h, hc, and_self, if_true] using this
+  simpa only [h, if_true] using this
 
 /-- **Zone thresholds, every iteration order.** `trips'` is ANY permutation of the trip points
     (Python iterates a `set`, whose order depends on the hash seed): when the zone has at most one
@@ -181,10 +220,11 @@ theorem C19_zone_thresholds_counterexample : ¬ ZoneThresholdsOrderFree cfgLoopI
 /-! ## front end -/
 
 /-- **Front-end refinement**: Fahrenheit conversion and back-fill, for every tree. -/
-theorem C19_front_refines (fahrenheit : Bool) (t : TempTree) :
+theorem C19_front_refines (fahrenheit : Bool) (t : TempTree)
+    (hct : t.coretempFiles = 0 ∨ (hwmonSensors t.chips).isEmpty = false) :
     ∃ rows, sensorsTemperaturesFront cfg fahrenheit t = .ok rows ∧
       List.Forall₂ AgreesOut rows (temperaturesFront fahrenheit t) := by
-  obtain ⟨rows, h1, h2⟩ := C19_temperatures_refine t
+  obtain ⟨rows, h1, h2⟩ := C19_temperatures_refine t hct
   refine ⟨rows.map (frontTemp cfg fahrenheit), ?_, forall2_front cfg cfg_good fahrenheit rows _ h2⟩
   simp [sensorsTemperaturesFront, h1]
 
@@ -258,8 +298,8 @@ theorem C19_fallback_iff (t : TempTree) :
         | cons _ _ => cases e0
       · exact Or.inr h2
   · intro h zs
-    rw [C19_missing_reading_skipped_never_fails t h]
-    exact C19_missing_reading_skipped_never_fails { t with zones := zs } h
+    rw [C19_missing_reading_skipped t h]
+    exact C19_missing_reading_skipped { t with zones := zs } h
 
 /-- non-vacuity: a tree with one chip, one readable sensor and a junk sensor; a zone set that meets
     the hypothesis of `C19_zone_thresholds` -/
@@ -283,19 +323,109 @@ example : ∃ v, zoneThresh bCritical l16Trips = some v := ⟨_, by
 theorem C19_fans_refine (chips : List Chip) (l : List FanOut) (h : fans chips = some l) :
     sensorsFans cfg chips = .ok l := fans_refine cfg cfg_good chips l h
 
+/-- **Per fan.** Whenever the call returns, its rows are exactly the rows of the fans the property
+    determines (reading missing / unreadable → left out; integer reading under a readable chip name
+    → reported), in listing order — whatever OTHER fans are listed (a junk reading elsewhere, if the
+    code skips it, takes nothing away from this statement). -/
+theorem C19_fans_rows_when_returns (chips : List Chip) (l : List FanOut) (h : sensorsFans cfg chips = .ok l) :
+    l = fanRowsDetermined chips := by
+  rw [sensorsFans_eq] at h
+  exact collect_ok_inv _ (fun cf => (fanRow cf.1 cf.2).join) _
+    (fun cf _ r hr => readFan_ok_join cfg cfg_good cf.1 cf.2 r hr) l h
+
+/-- **A missing or unreadable reading never fails the call**: `sensors_fans()` can raise only when
+    some LISTED fan is one the property is silent about (readable non-integer reading, or a readable
+    reading under an unreadable chip name). -/
+theorem C19_fans_error_only_on_silent_fan (chips : List Chip) (e : Exc) (h : sensorsFans cfg chips = .error e) :
+    ∃ cf ∈ fanListed chips, fanRow cf.1 cf.2 = none := by
+  rw [sensorsFans_eq] at h
+  obtain ⟨cf, hm, he⟩ := collect_error _ _ e h
+  exact ⟨cf, hm, readFan_error_silent cfg cfg_good cf.1 cf.2 e he⟩
+
+/-- CHARACTERISATION of the code while its `try` around the reading does not catch ValueError (the
+    case today; NOT an obligation — catching it as the temperature walker does is a legitimate
+    hardening): the call raises exactly when such a fan is listed. -/
+theorem C19_fans_raise_iff_as_found (hv : Exc.valueError ∉ cfg.fanCaught) (chips : List Chip) :
+    (∃ e, sensorsFans cfg chips = .error e) ↔ ∃ cf ∈ fanListed chips, fanRow cf.1 cf.2 = none := by
+  constructor
+  · rintro ⟨e, h⟩; exact C19_fans_error_only_on_silent_fan chips e h
+  · rintro ⟨cf, hm, hr⟩
+    rw [sensorsFans_eq]
+    exact collect_fails _ _ ⟨cf, hm, readFan_fails cfg hv cf.1 cf.2 hr⟩
+
+/-- no fan file listed at either level → `{}` -/
+theorem C19_none_when_absent_fans (chips : List Chip) (h : fanListed chips = []) : sensorsFans cfg chips = .ok [] := by
+  apply C19_fans_refine
+  simp [fans, h, allSome]
+
+/-- non-vacuity of `C19_fans_refine` / `C19_fans_rows_when_returns`: one chip, a fan at 1200 RPM and a
+    fan whose reading cannot be read; and a chip on which the property is silent (junk reading) -/
+def exFanChip (junk : Bool) : Chip :=
+  { nested := false, name := .content [110, 10], temps := []
+    fans := [ { input := .content [49, 50, 48, 48, 10], label := .absent, other := false },   -- "1200\n"
+              { input := if junk then .content [120, 10] else .unreadable, label := .absent, other := false } ] }
+
+example : fans [exFanChip false] = some [{ unit := [110], label := [], current := 1200 }] ∧
+    fans [exFanChip true] = none ∧
+    fanRowsDetermined [exFanChip true] = [{ unit := [110], label := [], current := 1200 }] := by decide
+
 /-! ## battery -/
 
 /-- **Refinement.** Whenever the specification determines the answer (every consulted file is
     absent, unreadable or holds an integer), `sensors_battery()` returns exactly it: the battery
     with the lexicographically smallest name among those called `BAT*` / `*battery*`, the first
-    readable of each pair of alternative files, percent, plugged and seconds left as stated. -/
-theorem C19_battery_refines (p : PowerTree) (v : Option BatOut) (h : battery p = some v) :
-    sensorsBattery cfg p = .ok v := battery_refines cfg cfg_good p v h
+    readable of each pair of alternative files, percent, plugged and seconds left as stated; `None`
+    when no power supply is a battery. The hypothesis `hdir` is there for the code AS FOUND only
+    (finding `C19-battery-no-power-supply-dir`): it falls away once the source answers a missing
+    `/sys/class/power_supply` with None (`C19_battery_refines_full_repaired`). -/
+theorem C19_battery_refines (p : PowerTree) (v : Option BatOut)
+    (hdir : cfg.noDirNone = true ∨ p.dirExists = true) (h : battery p = some v) :
+    sensorsBattery cfg p = .ok v := battery_refines cfg cfg_good p v hdir h
 
-/-- no battery → None -/
+/-- the full-strength statement, for an arbitrary configuration: NO hypothesis on the class directory -/
+def C19_battery_refines_Full (c : Cfg) : Prop :=
+  ∀ (p : PowerTree) (v : Option BatOut), battery p = some v → sensorsBattery c p = .ok v
+
+/-- the source with the proposed repair (fixes/C19-battery-no-power-supply-dir.diff): fact `batteryNoDirNone` = true -/
+def cfgNoDirNone : Cfg := { cfg with noDirNone := true }
+/-- the source as found: `os.listdir(POWER_SUPPLY_PATH)` unguarded -/
+def cfgNoDirRaises : Cfg := { cfg with noDirNone := false }
+
+theorem cfgNoDirNone_good : cfgNoDirNone.Good := by constructor <;> decide
+
+/-- **Full strength for the repaired source**: every tree, class directory present or not. -/
+theorem C19_battery_refines_full_repaired : C19_battery_refines_Full cfgNoDirNone :=
+  fun p v h => battery_refines cfgNoDirNone cfgNoDirNone_good p v (Or.inl rfl) h
+
+/-- **No battery → None, the class directory included** (repaired source): a kernel without
+    `/sys/class/power_supply` exposes no battery. -/
+theorem C19_none_when_no_power_supply_class_repaired (ss : List Supply) :
+    sensorsBattery cfgNoDirNone { dirExists := false, supplies := ss } = .ok none :=
+  C19_battery_refines_full_repaired _ _ (by simp [battery])
+
+/-- **Counterexample for the source as found** (finding `C19-battery-no-power-supply-dir`): without
+    `/sys/class/power_supply` the statement says None, `sensors_battery()` raises
+    FileNotFoundError (an OSError) out of `os.listdir`. -/
+theorem C19_battery_no_dir_counterexample : ¬ C19_battery_refines_Full cfgNoDirRaises := by
+  intro h
+  have := h { dirExists := false, supplies := [] } none (by decide)
+  simp [sensorsBattery, cfgNoDirRaises] at this
+
+/-- …and that is what the generated configuration does while the fact `batteryNoDirNone` is false -/
+theorem C19_battery_no_dir_as_found (ss : List Supply) (h : cfg.noDirNone = false) :
+    sensorsBattery cfg { dirExists := false, supplies := ss } = .error .osError := by
+  simp [sensorsBattery, h]
+
+/- AFTER LANDING fixes/C19-battery-no-power-supply-dir.diff (then `./check C19 --rebaseline`): uncomment.
+theorem cfg_battery_no_dir : cfg.noDirNone = true := by decide
+theorem C19_battery_refines_full : C19_battery_refines_Full cfg :=
+  fun p v h => battery_refines cfg cfg_good p v (Or.inl cfg_battery_no_dir) h
+-/
+
+/-- no battery among the power supplies → None -/
 theorem C19_none_when_absent_battery (p : PowerTree) (hd : p.dirExists = true)
     (h : ∀ s ∈ p.supplies, isBatteryName s.name = false) : sensorsBattery cfg p = .ok none := by
-  apply C19_battery_refines
+  apply C19_battery_refines _ _ (Or.inr hd)
   unfold battery
   have : firstBattery p.supplies = none := by
     unfold firstBattery
@@ -397,21 +527,22 @@ theorem C19_plugged_rules (ss : List Supply) (b : Supply) :
     simp only [pluggedOf, acOnline_eq, altInt_second _ h0, fileInt, h1, Option.map_none]
 
 /-- **end to end**: first battery with readable integer now / full / power figures (under either
-    file name) and no `time_to_empty_now`: percent = now/full·100 (0 when full = 0); seconds left =
+    file name), no `time_to_empty_now`, and no mains-adapter `online` file holding something else
+    than an integer: percent = now/full·100 (0 when full = 0); seconds left =
     UNLIMITED (-2) on mains, UNKNOWN (-1) when power = 0, else now/power·3600 truncated -/
 theorem C19_battery_kernel (p : PowerTree) (b : Supply) (n f pw : Int) (hd : p.dirExists = true)
     (hb : firstBattery p.supplies = some b)
     (h1 : altInt b.energyNow b.chargeNow = some (some n))
     (h2 : altInt b.energyFull b.chargeFull = some (some f))
     (h3 : altInt b.powerNow b.currentNow = some (some pw))
-    (h4 : b.timeToEmpty.readOpt = none) :
+    (h4 : b.timeToEmpty.readOpt = none) (hac : acOnline p.supplies ≠ some none) :
     sensorsBattery cfg p = .ok (some
       { percent := if f = 0 then 0 else 100 * (n : Rat) / (f : Rat)
         secsleft := if pluggedOf p.supplies b = some true then -2
                     else if pw = 0 then -1 else truncRat ((n : Rat) / (pw : Rat) * 3600)
         plugged := pluggedOf p.supplies b }) := by
-  apply C19_battery_refines
-  simp [battery, hd, hb, h1, h2, h3, fileInt, h4, percentOf, secsleftOf]
+  apply C19_battery_refines _ _ (Or.inr hd)
+  simp [battery, hd, hb, h1, h2, h3, fileInt, h4, percentOf, secsleftOf, hac]
 
 
 /-- non-vacuity of `C19_battery_kernel` / `C19_plugged_rules`: a discharging BAT0 next to an AC0 adapter -/
